@@ -282,7 +282,7 @@ class C12(Check):
         for step in steps:
             for k in range(2, n + 1):
                 exp = symx.explore(harness_regrid, {'n': k, 'B': B, 'seed': self.seed, 'replay_every': 3, 'step': step},
-                                   name='regrid[n=%d,step=%s]' % (k, step), engine_kw={'query_timeout_ms': 30000})
+                                   name='regrid[n=%d,step=%s]' % (k, step), engine_kw={'query_timeout_ms': 8000})
                 self.absorb(exp, need_paths=2)
         exp = symx.explore(harness_mapping, {'n': 3, 'B': 1 if quick else 2}, name='build_head_mapping[n=3]',
                            engine_kw={'query_timeout_ms': 30000})
